@@ -316,4 +316,356 @@ theorem parseModifiers_run (mods : List TK) (mtoks : List Tok) (pos : Nat) (s : 
     rw [← hkinds, List.foldl_map]
     rfl
 
+/-! ### pieces of a run -/
+
+theorem rt_runAt_mid {ts : List Tok} (h : RunAt (baseOff ts) ts) (X Y Z : List Tok) (e : ts = X ++ (Y ++ Z)) :
+    RunAt (offAt ts X.length) Y := by
+  have := slice_runAt h (i := X.length) (j := X.length + Y.length) (Nat.le_add_right _ _)
+  have hs : slice ts X.length (X.length + Y.length) = Y := by
+    unfold slice
+    rw [e, ← List.append_assoc, List.take_left' (by simp), List.drop_left]
+  rwa [hs] at this
+
+theorem rt_runAt_tail {off : Nat} {t : Tok} {l : List Tok} (h : RunAt off (t :: l)) : RunAt t.stop l :=
+  ⟨h.1.2, fun x hx => h.2 x (by simp [hx])⟩
+
+theorem offAt_after (X : List Tok) (t : Tok) (Z : List Tok) : offAt (X ++ t :: Z) (X.length + 1) = t.stop := by
+  apply offAt_succ
+  rw [List.getElem?_append_right (Nat.le_refl _)]; simp
+
+theorem checkEmptyName_run (container : String) (name : Text) (s : BP α) (h : name.isTextEmpty s.cs = false) :
+    checkEmptyName container name s = ((), s) := by
+  unfold checkEmptyName
+  simp only [bind, StateT.bind, get, getThe, MonadStateOf.get, StateT.get, pure, StateT.pure, h,
+    Bool.false_eq_true, if_false]
+
+/-! ### kinds of the pieces of a component -/
+
+theorem nameKind_excl {k : TK} (h : nameKind k = true ∨ k = .ws ∨ k = .blockComment) :
+    (k == .openBrace || isMarker k) = false ∧ k ≠ .openParen ∧ k ≠ .closeBrace := by
+  rcases h with h | h | h
+  · cases k <;> simp [nameKind, isMarker] at h ⊢
+  · subst h; simp [isMarker]
+  · subst h; simp [isMarker]
+
+theorem leaf_kinds {cs : CharSpec} {allowed : TK → Bool} {l tl : List Tok} (hl : leafOK cs allowed l = true)
+    (hs : Spells tl l) : ∀ t ∈ tl, allowed t.kind = true ∨ t.kind = .ws := by
+  intro t ht
+  obtain ⟨u, hu, hk, -⟩ := hs.mem ht
+  rw [hk]; exact leaf_tok_kind (leafOK_facts hl) u hu
+
+theorem pad_kinds {cs : CharSpec} {l tl : List Tok} (hl : padOK cs l = true) (hs : Spells tl l) :
+    ∀ t ∈ tl, t.kind = .ws ∨ t.kind = .blockComment :=
+  fun t ht => padOK_padT (hs.padOK_of hl) t ht
+
+theorem unitKind_excl {k : TK} (h : unitKind k = true ∨ k = .ws ∨ k = .blockComment) : k ≠ .closeBrace := by
+  rcases h with h | h | h
+  · cases k <;> simp [unitKind, valKind] at h ⊢
+  · subst h; simp
+  · subst h; simp
+
+/-- no `}` among the tokens of a quantity, and a visible token among them -/
+theorem rt_qty_kinds {cs : CharSpec} (q : AQty) (p : QPad) (hq : q.ok cs = true) (hp : p.ok cs = true)
+    (Q : List Tok) (hs : Spells Q (spellQty q p)) :
+    (∀ t ∈ Q, t.kind ≠ .closeBrace) ∧ Q.any (fun t => !isPadK t) = true := by
+  obtain ⟨L, pre, M, post, U, hts, hL, hpre, hM, hpost, hU⟩ := rt_qty_decomp hs
+  simp only [AQty.ok, Bool.and_eq_true] at hq
+  simp only [QPad.ok, Bool.and_eq_true] at hp
+  obtain ⟨⟨⟨hpl0, hpv⟩, hpu0⟩, hpu1⟩ := hp
+  obtain ⟨bpre, bpost, hVk, h, r, hMh, hhb, hhk⟩ := rt_val_facts hq.1 hpv hpre hM hpost
+  constructor
+  · intro t ht
+    rw [hts] at ht
+    rcases List.mem_append.mp ht with ht | ht
+    · rcases List.mem_append.mp ht with ht | ht
+      · obtain ⟨u, hu, hk, -⟩ := hL.mem ht
+        rw [hk]
+        unfold spellLock at hu
+        split at hu
+        · rcases List.mem_append.mp hu with hu | hu
+          · rcases padOK_padT hpl0 u hu with h' | h' <;> simp [h']
+          · simp at hu; subst hu; simp [tk]
+        · simp at hu
+      · exact (coreKind_excl (hVk t ht)).2.1
+    · obtain ⟨u, hu, hk, -⟩ := hU.mem ht
+      rw [hk]
+      cases hun : q.unit with
+      | none => rw [hun] at hu; simp [spellUnit] at hu
+      | some un =>
+        rw [hun] at hu hq
+        simp only [spellUnit, List.mem_append, List.mem_singleton] at hu
+        rcases hu with ((hu | hu) | hu) | hu
+        · subst hu; simp [tk]
+        · rcases padOK_padT hpu0 u hu with h' | h' <;> simp [h']
+        · rcases leaf_tok_kind (leafOK_facts hq.2) u hu with h' | h'
+          · exact unitKind_excl (Or.inl h')
+          · simp [h']
+        · rcases padOK_padT hpu1 u hu with h' | h' <;> simp [h']
+  · rw [List.any_eq_true]
+    refine ⟨h, by rw [hts, hMh]; simp, ?_⟩
+    simp only [isWsComment, Bool.or_eq_false_iff] at hhb
+    simp [isPadK, hhb.1.1, hhb.2]
+
+/-! ### the ingredient -/
+
+/-- the parsed quantity is the intended one -/
+def QtyMatches (cs : CharSpec) : Option AQty → Option (Loc (PQuantity α)) → Prop
+  | none, none => True
+  | some q, some pq =>
+    pq.val.value.value.val = q.val.denote ∧ pq.val.value.lock.isSome = q.lock ∧
+      pq.val.unit.map (fun t => t.trimmed cs) = q.unit.map leafText
+  | _, _ => False
+
+/-- the parsed ingredient is the intended one: texts trim to the intended strings, the modifier
+    flags are the written ones, no intermediate reference, the quantity as in the quantity layer -/
+def IngrMatches (cs : CharSpec) (c : AComp) (ing : PIngredient α) : Prop :=
+  ing.name.trimmed cs = leafText c.name ∧ ing.alias.map (fun t => t.trimmed cs) = c.alias.map leafText ∧
+  ing.note.map (fun t => t.trimmed cs) = c.note.map leafText ∧ ing.modifiers.val = modsOf c.mods ∧
+  ing.inter = none ∧ QtyMatches cs c.qty ing.quantity
+
+/-- the decomposition of the actual tokens of a component -/
+theorem rt_comp_decomp {marker : Tok} {c : AComp} {p : CPad} {ts : List Tok} (hs : Spells ts (spellComp marker c p)) :
+    ∃ tm mt nm n1 al tob Q tcb nt,
+      ts = tm :: (mt ++ (nm ++ n1 ++ al ++ tob :: (Q ++ tcb :: nt))) ∧ tm.kind = marker.kind ∧
+      Spells mt (spellMods c.mods) ∧ Spells nm c.name ∧ Spells n1 p.n1 ∧ Spells al (spellAlias c.alias p) ∧
+      tob.kind = .openBrace ∧ Spells Q (match c.qty with | some q => spellQty q p.q | none => p.e) ∧
+      tcb.kind = .closeBrace ∧ Spells nt (spellNote c.note) := by
+  simp only [spellComp, spellBraces, List.append_assoc, List.cons_append, List.nil_append] at hs
+  obtain ⟨tm, r, rfl, hmk, -, hs⟩ := hs.cons_inv
+  obtain ⟨mt, r, rfl, hmt, hs⟩ := hs.append_inv
+  obtain ⟨nm, r, rfl, hnm, hs⟩ := hs.append_inv
+  obtain ⟨n1, r, rfl, hn1, hs⟩ := hs.append_inv
+  obtain ⟨al, r, rfl, hal, hs⟩ := hs.append_inv
+  obtain ⟨tob, r, rfl, hobk, -, hs⟩ := hs.cons_inv
+  obtain ⟨Q, r, rfl, hQ, hs⟩ := hs.append_inv
+  obtain ⟨tcb, nt, rfl, hcbk, -, hnt⟩ := hs.cons_inv
+  exact ⟨tm, mt, nm, n1, al, tob, Q, tcb, nt, by simp, hmk, hmt, hnm, hn1, hal, hobk, hQ, hcbk, hnt⟩
+
+/-- the steps the ingredient and cookware parsers share, on the tokens of a component spelling:
+    marker, modifiers, body, note, alias, with the exact cursor after each -/
+theorem rt_comp_steps (mk : TK) (marker : Tok) (hmarker : marker.kind = mk) (c : AComp) (p : CPad) (s : BP α)
+    (hwf : c.wf s.cs s.ext = true) (hp : p.ok s.cs = true)
+    (A ts rest : List Tok) (hs : Spells ts (spellComp marker c p)) (ht : s.toks = A ++ (ts ++ rest))
+    (hc : s.cur = A.length) (hrest : restOK c rest = true) (hrun : RunAt (baseOff s.toks) s.toks) :
+    ∃ (tm : Tok) (mt nameT Q : List Tok) (tob tcb : Tok) (name : Text) (alias note : Option Text) (c2 c3 : Nat),
+      consumeK mk s = (some tm, { s with cur := A.length + 1 }) ∧
+      modifiersP ({ s with cur := A.length + 1 } : BP α) = (mt, { s with cur := c2 }) ∧
+      compBody ({ s with cur := c2 } : BP α) =
+        (some ⟨nameT, some ⟨tob.start, tcb.stop⟩, if Q.any (fun t => !isPadK t) then some Q else none⟩,
+          { s with cur := c3 }) ∧
+      noteP ({ s with cur := c3 } : BP α) = (note, { s with cur := A.length + ts.length }) ∧
+      (∀ container, parseAlias container nameT (offAt s.toks c2) ({ s with cur := A.length + ts.length } : BP α) =
+        ((name, alias), { s with cur := A.length + ts.length })) ∧
+      name.isTextEmpty s.cs = false ∧ name.trimmed s.cs = leafText c.name ∧
+      alias.map (fun t => t.trimmed s.cs) = c.alias.map leafText ∧
+      note.map (fun t => t.trimmed s.cs) = c.note.map leafText ∧
+      Spells mt (spellMods c.mods) ∧
+      Spells Q (match c.qty with | some q => spellQty q p.q | none => p.e) ∧
+      (∀ off, RunAt off Q → True) ∧ RunAt (baseOff Q) Q ∧
+      (Q.any (fun t => !isPadK t) = c.qty.isSome) := by
+  simp only [AComp.wf, Bool.and_eq_true] at hwf
+  obtain ⟨⟨⟨⟨⟨⟨⟨⟨hname, hmk⟩, hmnd⟩, hmext⟩, hmhead⟩, hnor⟩, halias⟩, hnote⟩, hqty⟩ := hwf
+  simp only [CPad.ok, Bool.and_eq_true] at hp
+  obtain ⟨⟨⟨⟨hpn1, hpa0⟩, hpa1⟩, hpq⟩, hpe⟩ := hp
+  obtain ⟨tm, mt, nm, n1, al, tob, Q, tcb, nt, rfl, htmk, hmt, hnm, hn1, hal, hobk, hQ, hcbk, hnt⟩ := rt_comp_decomp hs
+  rw [hmarker] at htmk
+  have lf := leafOK_facts hname
+  -- the head of the name
+  obtain ⟨u, ur, hu, hau⟩ := lf.head
+  have hnm0 := hnm
+  rw [hu] at hnm0
+  obtain ⟨hd, nmr, hnmeq, hhdk, -, -⟩ := hnm0.cons_inv
+  subst hnmeq
+  have hnmk := leaf_kinds hname hnm
+  have hn1k := pad_kinds hpn1 hn1
+  have hhd_nk : nameKind hd.kind = true := by rw [hhdk]; exact (isAtomTok_facts hau).1
+  -- kinds of the alias part
+  have halk : ∀ t ∈ al, nameKind t.kind = true ∨ t.kind = .ws ∨ t.kind = .blockComment := by
+    intro t ht'
+    cases hca : c.alias with
+    | none => rw [hca] at hal; simp only [spellAlias] at hal; rw [hal.nil_inv] at ht'; simp at ht'
+    | some a =>
+      rw [hca] at hal halias
+      simp only [Bool.and_eq_true] at halias
+      simp only [spellAlias, List.append_assoc, List.cons_append, List.nil_append] at hal
+      obtain ⟨tor, r, rfl, hork, -, hal⟩ := hal.cons_inv
+      obtain ⟨a0, r, rfl, ha0, hal⟩ := hal.append_inv
+      obtain ⟨ta, a1, rfl, hta, ha1⟩ := hal.append_inv
+      simp only [List.mem_cons, List.mem_append] at ht'
+      rcases ht' with rfl | ht' | ht' | ht'
+      · left; rw [hork]; rfl
+      · right; exact pad_kinds hpa0 ha0 t ht'
+      · rcases leaf_kinds halias.1.2 hta t ht' with h' | h'
+        · exact Or.inl h'
+        · exact Or.inr (Or.inl h')
+      · right; exact pad_kinds hpa1 ha1 t ht'
+  have hnameTk : ∀ t ∈ hd :: nmr ++ n1 ++ al, (t.kind == .openBrace || isMarker t.kind) = false := by
+    intro t ht'
+    rcases List.mem_append.mp ht' with ht' | ht'
+    · rcases List.mem_append.mp ht' with ht' | ht'
+      · rcases hnmk t ht' with h' | h'
+        · exact (nameKind_excl (Or.inl h')).1
+        · exact (nameKind_excl (Or.inr (Or.inl h'))).1
+      · exact (nameKind_excl (Or.inr (hn1k t ht'))).1
+    · exact (nameKind_excl (halk t ht')).1
+  -- the quantity tokens
+  have hQfacts : (∀ t ∈ Q, t.kind ≠ .closeBrace) ∧ Q.any (fun t => !isPadK t) = c.qty.isSome := by
+    cases hcq : c.qty with
+    | none =>
+      rw [hcq] at hQ
+      have := pad_kinds hpe hQ
+      refine ⟨fun t ht' => by rcases this t ht' with h' | h' <;> simp [h'], ?_⟩
+      simp only [Option.isSome_none, List.any_eq_false]
+      intro t ht'
+      rcases this t ht' with h' | h' <;> simp [isPadK, h']
+    | some q =>
+      rw [hcq] at hQ hqty
+      simp only [Bool.and_eq_true] at hqty
+      have := rt_qty_kinds q p.q hqty.1.1 hpq Q hQ
+      exact ⟨this.1, by simp [this.2]⟩
+  -- the whole token list, in the shapes the primitives want
+  have e1 : s.toks = A ++ tm :: (mt ++ hd :: (nmr ++ n1 ++ al ++ tob :: (Q ++ tcb :: (nt ++ rest)))) := by
+    rw [ht]; simp
+  have h1 := consumeK_split_some mk s A tm _ e1 hc htmk
+  -- modifiers
+  have hmtk : ∀ m ∈ mt, modKind m.kind = true := by
+    intro m hm
+    obtain ⟨u', hu', hk', -⟩ := hmt.mem hm
+    simp only [spellMods, List.mem_map] at hu'
+    obtain ⟨k, hk, rfl⟩ := hu'
+    rw [hk']; rw [List.all_eq_true] at hmk; exact hmk k hk
+  have h2 : modifiersP ({ s with cur := A.length + 1 } : BP α) = (mt, { s with cur := A.length + 1 + mt.length }) := by
+    by_cases hext : s.ext.has Gen.EXT_COMPONENT_MODIFIERS = true
+    · have hx : modKind hd.kind = false := by
+        simp only [Ext.modifiers, hext, Bool.not_true, Bool.false_or, hu, List.head?_cons, Option.all_some] at hmhead
+        rw [hhdk]; simpa using hmhead
+      have := modifiersP_on ({ s with cur := A.length + 1 } : BP α) hext (A ++ [tm]) mt hd
+        (nmr ++ n1 ++ al ++ tob :: (Q ++ tcb :: (nt ++ rest))) (by rw [e1]; simp) (by simp) hmtk hx
+        (nameKind_excl (Or.inl hhd_nk)).2.1
+      rw [this]; simp
+    · have hext' : s.ext.has Gen.EXT_COMPONENT_MODIFIERS = false := by simpa using hext
+      simp only [Ext.modifiers, hext', Bool.or_false, List.isEmpty_iff] at hmext
+      rw [hmext] at hmt
+      simp only [spellMods, List.map_nil] at hmt
+      have := hmt.nil_inv; subst this
+      rw [modifiersP_off ({ s with cur := A.length + 1 } : BP α) hext']; rfl
+  -- body
+  have h3 := compBody_run ({ s with cur := A.length + 1 + mt.length } : BP α) (A ++ tm :: mt)
+    (hd :: nmr ++ n1 ++ al) tob Q tcb (nt ++ rest) (by rw [e1]; simp) (by simp; omega) hnameTk hobk hQfacts.1 hcbk
+  -- the note
+  have hnoteR : ∃ note : Option Text,
+      noteP ({ s with cur := (A ++ tm :: mt).length + (hd :: nmr ++ n1 ++ al).length + 1 + Q.length + 1 } : BP α) =
+        (note, { s with cur := A.length + (tm :: (mt ++ (hd :: nmr ++ n1 ++ al ++ tob :: (Q ++ tcb :: nt)))).length }) ∧
+      note.map (fun t => t.trimmed s.cs) = c.note.map leafText := by
+    cases hcn : c.note with
+    | none =>
+      rw [hcn] at hnt
+      simp only [spellNote] at hnt
+      have := hnt.nil_inv; subst this
+      refine ⟨none, ?_, rfl⟩
+      have hr : ∀ t, rest.head? = some t → t.kind ≠ .openParen := by
+        intro t ht'
+        simp only [restOK, hcn, Option.isSome_none, Bool.false_or, ht', Option.all_some, bne_iff_ne] at hrest
+        simpa using hrest
+      rw [noteP_none _ (A ++ tm :: mt ++ (hd :: nmr ++ n1 ++ al) ++ [tob] ++ Q ++ [tcb]) rest
+        (by rw [e1]; simp) (by lenarith) hr]
+      congr 2
+      lenarith
+    | some n =>
+      rw [hcn] at hnt hnote
+      simp only [spellNote, List.append_assoc, List.cons_append, List.nil_append] at hnt
+      obtain ⟨top, r, rfl, hopk, -, hnt⟩ := hnt.cons_inv
+      obtain ⟨N, r, rfl, hN, hnt⟩ := hnt.append_inv
+      obtain ⟨tcp, rfl, hcpk, -⟩ := hnt.single_inv
+      simp only [tk] at hopk hcpk
+      have hNk : ∀ t ∈ N, t.kind ≠ .closeParen := by
+        intro t ht'
+        rcases leaf_kinds hnote hN t ht' with h' | h'
+        · cases hk : t.kind <;> simp [noteKind, nameKind, hk] at h' ⊢
+        · simp [h']
+      have hrN : RunAt top.stop N := by
+        have := rt_runAt_mid hrun (A ++ tm :: mt ++ (hd :: nmr ++ n1 ++ al) ++ [tob] ++ Q ++ [tcb] ++ [top]) N
+          (tcp :: rest) (by rw [e1]; simp)
+        rw [e1] at this
+        have e2 : A ++ tm :: (mt ++ hd :: (nmr ++ n1 ++ al ++ tob :: (Q ++ tcb :: (top :: (N ++ [tcp]) ++ rest)))) =
+            (A ++ tm :: mt ++ (hd :: nmr ++ n1 ++ al) ++ [tob] ++ Q ++ [tcb]) ++ top :: (N ++ tcp :: rest) := by simp
+        rw [e2, List.length_append, List.length_singleton, offAt_after] at this
+        exact this
+      refine ⟨some (buildText top.stop N), ?_, ?_⟩
+      · rw [noteP_some _ (A ++ tm :: mt ++ (hd :: nmr ++ n1 ++ al) ++ [tob] ++ Q ++ [tcb]) top N tcp rest
+          (by rw [e1]; simp) (by lenarith) hopk hNk hcpk hrN]
+        congr 2
+        lenarith
+      · have := rt_leaf_text (cs := s.cs) (allowed := noteKind) (pre := []) (l := n) (post := []) (ts := N)
+          (by simpa using hN) rfl rfl hnote top.stop
+        simp [this.1]
+  obtain ⟨note, hnoteP, hnoteT⟩ := hnoteR
+  -- name and alias
+  have hrunName : RunAt (offAt s.toks (A.length + 1 + mt.length)) (hd :: nmr ++ n1 ++ al) := by
+    have := rt_runAt_mid hrun (A ++ tm :: mt) (hd :: nmr ++ n1 ++ al) (tob :: (Q ++ tcb :: (nt ++ rest)))
+      (by rw [e1]; simp)
+    have e2 : (A ++ tm :: mt).length = A.length + 1 + mt.length := by lenarith
+    rwa [e2] at this
+  have hnoOr : s.ext.has Gen.EXT_COMPONENT_ALIAS = true → ∀ t ∈ hd :: nmr ++ n1, t.kind ≠ .or := by
+    intro hext t ht'
+    rcases List.mem_append.mp ht' with ht' | ht'
+    · obtain ⟨u', hu', hk', -⟩ := hnm.mem ht'
+      simp only [Ext.alias, hext, Bool.not_true, Bool.false_or, List.all_eq_true, bne_iff_ne] at hnor
+      rw [hk']; exact hnor u' hu'
+    · rcases hn1k t ht' with h' | h' <;> simp [h']
+  have hnameLeaf := fun off => rt_leaf_text (cs := s.cs) (allowed := nameKind) (pre := []) (l := c.name) (post := p.n1)
+    (ts := hd :: nmr ++ n1) (by simpa using hnm.append hn1) rfl hpn1 hname off
+  have haliasR : ∃ (name : Text) (alias : Option Text),
+      (∀ container (s' : BP α), s'.ext = s.ext → s'.cs = s.cs →
+        parseAlias container (hd :: nmr ++ n1 ++ al) (offAt s.toks (A.length + 1 + mt.length)) s' = ((name, alias), s')) ∧
+      name.isTextEmpty s.cs = false ∧ name.trimmed s.cs = leafText c.name ∧
+      alias.map (fun t => t.trimmed s.cs) = c.alias.map leafText := by
+    cases hca : c.alias with
+    | none =>
+      rw [hca] at hal
+      simp only [spellAlias] at hal
+      have := hal.nil_inv; subst this
+      simp only [List.append_nil] at hrunName ⊢
+      refine ⟨buildText (offAt s.toks (A.length + 1 + mt.length)) (hd :: nmr ++ n1), none, ?_, (hnameLeaf _).2,
+        (hnameLeaf _).1, rfl⟩
+      intro container s' he hcs
+      apply parseAlias_none container _ _ s' hrunName
+      by_cases hext : s.ext.has Gen.EXT_COMPONENT_ALIAS = true
+      · right; exact hnoOr hext
+      · left; rw [he]; simpa using hext
+    | some a =>
+      rw [hca] at hal halias
+      simp only [Bool.and_eq_true] at halias
+      obtain ⟨⟨hext, haleaf⟩, hanor⟩ := halias
+      simp only [Ext.alias] at hext
+      simp only [spellAlias, List.append_assoc, List.cons_append, List.nil_append] at hal
+      obtain ⟨tor, aliasT, rfl, hork, -, haT⟩ := hal.cons_inv
+      simp only [tk] at hork
+      have hsplit := (runAt_append _ _ _).mp hrunName
+      have hrA : RunAt tor.stop aliasT := rt_runAt_tail hsplit.2
+      have haliasLeaf := rt_leaf_text (cs := s.cs) (allowed := nameKind) (pre := p.a0) (l := a) (post := p.a1)
+        (ts := aliasT) (by simpa using haT) hpa0 hpa1 haleaf tor.stop
+      have haTk : ∀ t ∈ aliasT, t.kind ≠ .or := by
+        intro t ht'
+        obtain ⟨u', hu', hk', -⟩ := haT.mem ht'
+        rw [hk']
+        simp only [List.mem_append] at hu'
+        rcases hu' with hu' | hu' | hu'
+        · rcases padOK_padT hpa0 u' hu' with h' | h' <;> simp [h']
+        · rw [List.all_eq_true] at hanor; simpa using hanor u' hu'
+        · rcases padOK_padT hpa1 u' hu' with h' | h' <;> simp [h']
+      refine ⟨buildText (offAt s.toks (A.length + 1 + mt.length)) (hd :: nmr ++ n1),
+        some (buildText tor.stop aliasT), ?_, (hnameLeaf _).2, (hnameLeaf _).1, by simp [haliasLeaf.1]⟩
+      intro container s' he hcs
+      exact parseAlias_some container (hd :: nmr ++ n1) tor aliasT _ s' (by rw [he]; exact hext) (hnoOr hext) hork
+        haTk hsplit.1 hrA (by rw [hcs]; exact haliasLeaf.2)
+  obtain ⟨name, alias, hparseAlias, hnameNE, hnameT, haliasT⟩ := haliasR
+  have hrunQ : RunAt (baseOff Q) Q :=
+    (rt_runAt_mid hrun (A ++ tm :: mt ++ (hd :: nmr ++ n1 ++ al) ++ [tob]) Q (tcb :: (nt ++ rest))
+      (by rw [e1]; simp)).base
+  refine ⟨tm, mt, hd :: nmr ++ n1 ++ al, Q, tob, tcb, name, alias, note, _, _, h1, h2, h3, hnoteP, ?_, hnameNE, hnameT,
+    haliasT, hnoteT, hmt, hQ, fun _ _ => trivial, hrunQ, hQfacts.2⟩
+  intro container
+  exact hparseAlias container _ rfl rfl
+
 end Cook
